@@ -82,3 +82,67 @@ def allwrite_sites(db, rep):
     if H.calls < 3 and all(v[0] for v in H.sites.values()):
         raise AnalysisBroken('allwrite: the write operation was reached %d times (< 3 iterations)' % H.calls)
     return H.sites
+
+
+class WriteOpHooks(QHooks):
+    """the write operation installed in an output substdio (op(fd, buf, len)): what it returns when the kernel accepts only part"""
+    inline_names = frozenset(['timeoutwrite'])
+
+    def __init__(self):
+        self.returns = []
+        self.writes = 0
+
+    def tracked_global(self, path):
+        return path.startswith('$')
+
+    def precise_arith(self, path):
+        return True
+
+    def prim_select(self, E, x, args):
+        return [Outcome(ret=fs(-1)), Outcome(ret=fs(0)), Outcome(ret=fs(1))]
+
+    def prim___errno_location(self, E, x, args):
+        return [Outcome(ret=fs(('&', '$errno')))]
+
+    def prim_write(self, E, x, args):
+        self.writes += 1
+        n = one(args[2])
+        return [Outcome(ret=fs(-1), sets={'$w': fs(-1)}), Outcome(ret=fs(7), sets={'$w': fs(7), '$asked': fs(n)}, log='write() accepts 7 of the bytes offered')]
+
+    def prim_dropped(self, E, x, args):
+        return 'noreturn'
+
+    def prim__exit(self, E, x, args):
+        return 'noreturn'
+
+    def on_return(self, E, fn, val):
+        if fn.name == self.entry:
+            self.returns.append((one(E.get('$w')), one(val) if val is not None else None, one(E.get('$asked')), E.trace.list()))
+
+
+def writeop_sites(db, rep, prog, unit, name):
+    fn = prog.fn(name, unit)
+    H = WriteOpHooks()
+    H.entry = name
+    eng = Engine(db, prog, H)
+    fid = eng.frame_id(fn)
+    st = {}
+    if len(fn.params) != 3:
+        raise AnalysisBroken('%s: not an op(fd, buf, len)' % name)
+    st['%s::%s' % (fid, fn.params[2])] = fs(100)
+    eng.run(fn, st)
+    rep.count_states(eng.states, eng.transitions)
+    if H.writes < 1:
+        raise AnalysisBroken('%s: write() not reached' % name)
+    bad = None
+    nshort = 0
+    for w, ret, asked, tr in H.returns:
+        if w == 7:
+            nshort += 1
+            if ret != 7 or asked != 100:
+                bad = bad or ('the kernel accepted 7 of %s offered bytes and %s() reports %s: the caller believes bytes were sent that were not, and drops them from the stream' % (asked, name, ret), tr)
+        elif ret is None or ret > 0:
+            bad = bad or ('write() failed or was not called and %s() reports %s bytes written' % (name, ret), tr)
+    if nshort < 1 and bad is None:
+        raise AnalysisBroken('%s: the partial-write path was not explored' % name)
+    return {'%s:reports-exactly-what-write()-accepted' % name: (bad is None, '%s:%s' % (unit, name), bad[0] if bad else '', bad[1] if bad else [])}
